@@ -616,6 +616,13 @@ def _draw_spec(draw, state, kinds, counter):
                 'cells': [[str(j + 1), str(10 + j), str(20 + j), str(30 + j), str(40 + j)] for j in range(nr)],
                 'options': dict(draw(st.sampled_from([{'cast_strategy': 'schema'}, {'infer_strategy': 'strings'}])),
                                 deduplicate_headers=True)}
+    if k == 'load_csv' and draw(st.integers(0, 4)) == 0:
+        # a column in which most - not all - cells look like numbers: its type has to fit every cell
+        nr = draw(st.sampled_from([8, 10, 20]))
+        odd = draw(st.integers(0, nr - 1))
+        return {'k': k, 'name': 'csv%d' % n, 'header': ['id', 'label', 'amount'],
+                'cells': [[str(j + 1), 'x', ('X%03d' % j) if j == odd else str(100 + j)] for j in range(nr)],
+                'options': draw(st.sampled_from([{}, {'cast_strategy': 'schema'}]))}
     if k == 'load_csv':
         nr = draw(st.integers(0, 3))
         return {'k': k, 'name': 'csv%d' % n, 'header': ['id', 'label', 'amount'],
